@@ -63,20 +63,34 @@ COMPANY = {
     'six-mixed': [('T', 2, 1), ('other', 2, 2), ('T', 2, 3), ('lowfi', 2, 4), ('other', 2, 5), ('T', 2, 6)],
     'unrodded': [('lowfi', 2, p) for p in (1, 3, 5)],
     'two-same': [('T', 2, 2), ('T', 2, 5)],
+    # a very-low-flow assembly of the same type earlier / later in position order
+    'lowflow-same': [('T', 2, 4, 0.02), ('T', 2, 6, 0.02)],
+    'lowflow-other': [('other', 2, 4, 0.01), ('other', 2, 6, 0.01)],
 }
+
+
+TPOS = {'centre': (1, 1), 'ring2': (2, 4)}
 
 
 def build(c, company, dz=None, line_order=None):
     kind = c['target']
     types = {'T': tdesign(kind)}
-    assign = [['T', 1, 1, {'flowrate': c.get('flow', 1.6)}]]
-    power = {'1': pspec(kind, 0, c.get('seed', 0))}
-    for i, (ty, ring, pos) in enumerate(company):
+    tr, tp = TPOS[c.get('tpos', 'centre')]
+    assign = [['T', tr, tp, {'flowrate': c.get('flow', 1.6)}]]
+    power = {str(S.asm_id(tr, tp) + 1): pspec(kind, 0, c.get('seed', 0))}
+    for i, ent in enumerate(company):
+        ty, ring, pos = ent[0], ent[1], ent[2]
+        if (ring, pos) == (tr, tp):
+            ring, pos = 1, 1            # the target sits elsewhere: its neighbour takes the centre
         name = 'T' if ty == 'T' else ty
         if name not in types:
             types[name] = tdesign(name)
-        assign.append([name, ring, pos, {'flowrate': round(1.0 + 0.23 * i, 4)}])
-        power[str(S.asm_id(ring, pos) + 1)] = pspec(kind if ty == 'T' else ty, i + 1, c.get('seed', 0))
+        fl = ent[3] if len(ent) > 3 else round(1.0 + 0.23 * i, 4)
+        assign.append([name, ring, pos, {'flowrate': fl}])
+        sp = pspec(kind if ty == 'T' else ty, i + 1, c.get('seed', 0))
+        if len(ent) > 3:
+            sp['q'] *= fl / 1.3          # keep the temperature rise of low-flow neighbours moderate
+        power[str(S.asm_id(ring, pos) + 1)] = sp
     if line_order is not None:
         assign = [assign[k] for k in line_order]
     setup = {}
@@ -84,6 +98,9 @@ def build(c, company, dz=None, line_order=None):
         setup['axial_mesh_size'] = dz
     if c.get('tol'):
         setup['param_update_tol'] = c['tol']
+    if c.get('conv_approx'):
+        setup['conv_approx'] = True
+        setup['conv_approx_dz_cutoff'] = c.get('cutoff', 0.004)
     return {'setup': setup,
             'core': {'inlet': 623.15, 'length': L, 'pitch': 0.064, 'gap_model': 'none',
                      'bypass_fraction': 0.0, 'coolant': c.get('coolant', 'sodium_se2anl_425')},
@@ -155,12 +172,13 @@ def run_company(c):
     V = r['violations']
     comp = COMPANY[c['company']]
     dz = common_step(c, [build(c, []), build(c, comp)])
-    ref, zr, _, _ = trace(build(c, [], dz), ids={0})
-    got, zg, _, _ = trace(build(c, comp, dz), ids={0})
+    tid = S.asm_id(*TPOS[c.get('tpos', 'centre')])
+    ref, zr, _, _ = trace(build(c, [], dz), ids={tid})
+    got, zg, _, _ = trace(build(c, comp, dz), ids={tid})
     if not np.array_equal(zr, zg):
         V.append(violation('harness-planes-differ', c, 'twin runs do not share the axial planes'))
         return r
-    d = first_diff(ref[0], got[0])
+    d = first_diff(ref[tid], got[tid])
     r['states'] = len(zr) * 2
     r['transitions'] = (len(zr) - 1) * (1 + len(comp) + 1)
     r['traces'] = 2
@@ -234,6 +252,54 @@ def run_schedule(c):
                 break
         if V:
             break
+    r['nontrivial'] = True
+    r['outcome'] = 'ok' if not V else 'violation'
+    return r
+
+
+def run_rangeline(c):
+    """six assemblies of one type assigned by ONE range line vs. one line per position, in the unit
+    system given: every assembly must come out bitwise identical"""
+    r = new_result()
+    V = r['violations']
+    kind = c['target']
+    units = c['units']
+    flow_si = 1.3
+    ffac = {'kg/s': 1.0, 'lb/s': 1.0 / 0.45359237, 'kg/min': 60.0, 'lb/hr': 3600.0 / 0.45359237}[units['mass_flow_rate']]
+    tin = {'kelvin': 623.15, 'celsius': 350.0, 'fahrenheit': 662.0}[units['temperature']]
+
+    def scn(mode, dz):
+        types = {'T': tdesign(kind), 'other': tdesign('other')}
+        assign = [['other', 1, 1, {'flowrate': 0.9 * ffac}]]
+        if mode == 'range':
+            assign.append(['T', 2, 1, {'flowrate': flow_si * ffac}, 6])
+        else:
+            for p in range(1, 7):
+                assign.append(['T', 2, p, {'flowrate': flow_si * ffac}])
+        power = {'1': pspec('other', 0, c.get('seed', 0))}
+        for p in range(1, 7):
+            power[str(S.asm_id(2, p) + 1)] = pspec(kind, p, c.get('seed', 0))
+        setup = {'axial_mesh_size': dz} if dz else {}
+        return {'setup': setup, 'units': units,
+                'core': {'inlet': tin, 'length': L, 'pitch': 0.064, 'gap_model': 'none', 'bypass_fraction': 0.0,
+                         'coolant': c.get('coolant', 'sodium_se2anl_425')},
+                'types': types, 'assign': assign, 'power': {'asm': power}}
+    dz = common_step(c, [scn('lines', None)])
+    a, za, _, _ = trace(scn('lines', dz))
+    b, zb, _, _ = trace(scn('range', dz))
+    r['traces'] = 2
+    r['states'] = 2 * len(za)
+    r['transitions'] = 14 * (len(za) - 1)
+    if not np.array_equal(za, zb):
+        V.append(violation('depends-on-assignment-form', c, 'axial mesh differs between a range line and one line per position'))
+    else:
+        for k in sorted(a):
+            d = first_diff(a[k], b[k])
+            if d is not None:
+                V.append(violation('depends-on-assignment-form', c,
+                                   'assembly %d differs when its six positions are assigned by one range line instead '
+                                   'of one line each (units %s)' % (k, units), d[1], 0.0, 0.0))
+                break
     r['nontrivial'] = True
     r['outcome'] = 'ok' if not V else 'violation'
     return r
@@ -323,14 +389,27 @@ def cases(tier):
     comp, order, sched, iso = [], [], [], []
     targets = ['single', 'bypass', 'pins', 'multi'] if tier == 'quick' else ['single', 'bypass', 'pins', 'multi', 'lowfi']
     coolants = ['sodium_se2anl_425', 'sodium']
-    tols = [0.0] if tier == 'quick' else [0.0, 0.01]
+    tols = [0.0, 0.01]
     for t in targets:
         for cool in coolants:
             for tol in tols:
+                if tol and cool != 'sodium':
+                    continue
                 for k in COMPANY:
                     if k == 'alone':
                         continue
+                    if tier == 'quick' and tol and k not in ('plus1-same', 'six-same', 'six-mixed'):
+                        continue
+                    if k.startswith('lowflow'):
+                        # low-flow neighbours before and after the target in position order, with the
+                        # low-flow convection approximation requested
+                        for ca in (False, True):
+                            comp.append(dict(target=t, coolant=cool, company=k, tol=tol, tpos='ring2',
+                                             conv_approx=ca))
+                        continue
                     comp.append(dict(target=t, coolant=cool, company=k, tol=tol))
+                    if k in ('six-mixed', 'two-same') and (tier != 'quick' or t in ('single', 'bypass')):
+                        comp.append(dict(target=t, coolant=cool, company=k, tol=tol, tpos='ring2'))
                 for k in (('six-mixed',) if tier == 'quick' else ('six-mixed', 'two-same', 'six-same')):
                     if tol == 0.0:
                         order.append(dict(target=t, coolant=cool, company=k))
@@ -345,6 +424,18 @@ def cases(tier):
                     for k in ('six-same', 'six-mixed'):
                         comp.append(dict(target=t, coolant=cool, company=k, tol=0.0, flow=flow))
     return comp, order, sched, iso
+
+
+def cases_rangeline(tier):
+    out = []
+    ul = [{'temperature': 'kelvin', 'length': 'm', 'mass_flow_rate': 'kg/s'},
+          {'temperature': 'celsius', 'length': 'm', 'mass_flow_rate': 'lb/s'},
+          {'temperature': 'fahrenheit', 'length': 'm', 'mass_flow_rate': 'lb/hr'},
+          {'temperature': 'kelvin', 'length': 'm', 'mass_flow_rate': 'kg/min'}]
+    for t in (('single', 'bypass') if tier == 'quick' else ('single', 'bypass', 'pins', 'multi')):
+        for u in ul:
+            out.append(dict(target=t, units=u))
+    return out
 
 
 def main(run):
@@ -362,12 +453,16 @@ def main(run):
     run.explore('order', order, run_order, budget_s=600)
     run.explore('schedule', sched, run_schedule, budget_s=600)
     run.explore('isolation', iso, run_isolation, budget_s=300)
+    rl = cases_rangeline(run.tier)
+    for c in rl:
+        c['seed'] = run.seed % 4
+    run.explore('rangeline', rl, run_rangeline, budget_s=300)
 
 
 def replay(body):
     from ..run import guarded
     fn = {'company': run_company, 'order': run_order, 'schedule': run_schedule,
-          'isolation': run_isolation}[body.get('part') or 'company']
+          'isolation': run_isolation, 'rangeline': run_rangeline}[body.get('part') or 'company']
     c = {k: v for k, v in body['scenario'].items() if k not in ('perm', 'attr')}
     r = guarded(fn, c, 900)
     for v in r['violations']:
